@@ -622,6 +622,66 @@ CLASS_OWNERS = {
     'readlink_msg_names_target': ('C20',), 'write_all_existing_skipped': ('C20',), 'readlink_abs_suffix': ('C20',), 'no_dir_no_file_exists': ('C20',), 'is_symlink_wrong_name': ('C20',), 'symlink_existing_skipped': ('C20',),
 }
 
+def inv_of_dump(raw):
+    """the C03 tree invariant evaluated directly on a raw `verif::memfs_dump` of the implementation
+    (mirror of Lean `Spec.invViolation`; used when the implementation no longer follows the model)"""
+    if ' ## ' in raw:
+        raw = raw.split(' ## ', 1)[1]
+    ents, data, root = {}, {}, None
+    for r in raw.split('|'):
+        if r.startswith('root '):
+            root = r[5:]
+        elif r.startswith('E '):
+            p = r.split(' ')
+            f = dict(x.split('=', 1) for x in p[2:])
+            if p[1] in ents:
+                return 'duplicate-key'
+            ents[p[1]] = f
+        elif r.startswith('F '):
+            p = r.split(' ')
+            if p[1] in data:
+                return 'duplicate-data-key'
+            data[p[1]] = p[2]
+    if '2f' not in ents or ents['2f']['d'] != '1' or ents['2f']['l'] == '1':
+        return 'root-missing-or-not-dir'
+    if root != '2f':
+        return 'root-not-absolute'
+
+    def parent(k):
+        i = k.rfind('2f', 0, len(k))
+        # keys are hex of utf8: find the last separator at an even offset
+        j = len(k) - 2
+        while j > 0 and not (k[j:j + 2] == '2f' and j % 2 == 0):
+            j -= 2
+        return ('2f' if j == 0 else k[:j]), k[j + 2:]
+    for k, f in ents.items():
+        if k == '2f':
+            continue
+        pk, name = parent(k)
+        pe = ents.get(pk)
+        if pe is None or pe['d'] != '1' or pe['l'] == '1' or pe['files'] == '-' or name not in pe['files'][1:-1].split(','):
+            return 'orphan-or-unlisted:' + k
+    for k, f in ents.items():
+        if f['files'] != '-':
+            names = [x for x in f['files'][1:-1].split(',') if x]
+            if len(set(names)) != len(names):
+                return 'duplicate-child-name:' + k
+            for n in names:
+                ck = ('2f' + n) if k == '2f' else k + '2f' + n
+                if ck not in ents:
+                    return 'listed-name-missing-under:' + k
+        if (f['f'] == '1' and f['l'] == '0') != (k in data):
+            return 'data-mismatch:' + k
+        if f['path'] != k:
+            return 'path-field:' + k
+        if (f['files'] != '-') != (f['d'] == '1'):
+            return 'child-set-vs-dir-flag:' + k
+    for k in data:
+        if k not in ents:
+            return 'dangling-data:' + k
+    return None
+
+
 UNORDERED_OPS = ('entries', 'chown_b', 'chown', 'copy_b', 'copy', 'chmod_b', 'chmod', 'mkfile_m')
 
 
@@ -793,7 +853,19 @@ def analyse_sessions(spec, hists, open_known, tag):
             hist[key] = hist.get(key, 0) + 1
             c = cmp_line(req, x, model)
             if c == 'mismatch':
-                mismatch.append(dict(history=h, at=i, impl=x, model=model))
+                # the model no longer describes the implementation here: evaluate the property itself on
+                # the implementation's result (the spec column was computed from the agreed pre-state)
+                j = None
+                try:
+                    j = (spec['judge'](req, x, f, prev, hi, i) if spec.get('judge_ctx') else spec['judge'](req, x, f, prev)) if judging else None
+                except Exception:
+                    j = None
+                if j:
+                    cls = f[2] if len(f) > 2 else '-'
+                    new_fail.append(dict(history=h, at=i, impl=x, spec=j[0], cls=cls,
+                                         why=j[1] + ' (and the implementation no longer behaves like the Lean model' + (f'; inside class {cls} but not with the recorded behaviour' if cls != '-' else '') + ')'))
+                else:
+                    mismatch.append(dict(history=h, at=i, impl=x, model=model))
                 break
             if c == 'dead':
                 if 'LinkLooping' in xo:
